@@ -144,3 +144,49 @@ pub fn str_lit(s: &str) -> SemValue {
 pub fn char_lit(c: char) -> SemValue {
     SemValue::Literal(Literal::Char(c))
 }
+
+/* ------------------------------------------------------------------------------------------ */
+/* Sessions: several host calls on one machine (handles stay valid between calls)              */
+/* ------------------------------------------------------------------------------------------ */
+
+pub struct HostSession<'rt> {
+    runtime: Runtime<'rt>,
+}
+
+impl<'rt> HostSession<'rt> {
+    /// Invoke `role` with `args` (in declaration order). Returns the decoded outcome and the frames left.
+    pub fn call(&mut self, role: BuiltinValueRole, args: Vec<SemValue>) -> (Result<HostOutcome, PanicInfo>, usize) {
+        let before = self.runtime.stack.len();
+        for arg in args.into_iter().rev() {
+            self.runtime.stack.push_back(SemCompu::App(arg));
+        }
+        let prim: Computation = Computation::Prim(Prim { arity: role.arity() as u64, role });
+        let runtime = &mut self.runtime;
+        let outcome = catch(|| prim.step(runtime)).map(|step| match step {
+            | Step::Step(next) => decode(&next),
+            | Step::Done(ProgKont::ExitCode(c)) => HostOutcome::Exit(c),
+            | Step::Done(other) => HostOutcome::Other(format!("{:?}", other)),
+        });
+        let left = self.runtime.stack.len().saturating_sub(before);
+        // keep the stack clean for the next call even if the operation left something behind
+        while self.runtime.stack.len() > before {
+            self.runtime.stack.pop_back();
+        }
+        (outcome, left)
+    }
+}
+
+/// Run `f` with a session over the given stdin/argv; returns f's result and the bytes written to stdout.
+pub fn with_session<T>(stdin: &[u8], argv: &[String], f: impl FnOnce(&mut HostSession<'_>) -> T) -> (T, Vec<u8>) {
+    let mut input = std::io::Cursor::new(stdin.to_vec());
+    let mut output: Vec<u8> = Vec::new();
+    let result;
+    {
+        let root: Computation = Return(Rc::new(Value::Triv(Triv))).into();
+        let program = DynamicsProgram { defs: ArenaSparse::new(), root: Rc::new(root) };
+        let runtime = Runtime::new(&mut input, &mut output, argv, program);
+        let mut session = HostSession { runtime };
+        result = f(&mut session);
+    }
+    (result, output)
+}
